@@ -92,6 +92,11 @@ type storage struct {
 	writer *os.File
 	fds    []*os.File
 	size   int64
+
+	// fdsMu guards the fds slice header against fetch reading it while
+	// a pack roll-over appends to it. (mu can't be used by fetch: it is
+	// held for the whole duration of a write.)
+	fdsMu sync.RWMutex
 }
 
 func (s *storage) String() string {
@@ -237,7 +242,9 @@ func (s *storage) openForRead(n int) error {
 	}
 	openFdsVar.Add(s.root, 1)
 	debug.Printf("diskpacked: opened for read %q", fn)
+	s.fdsMu.Lock()
 	s.fds = append(s.fds, f)
+	s.fdsMu.Unlock()
 	return nil
 }
 
@@ -376,10 +383,16 @@ func (s *storage) fetch(br blob.Ref, offset, length int64) (rc io.ReadCloser, si
 		return nil, 0, err
 	}
 
-	if meta.file >= len(s.fds) {
-		return nil, 0, fmt.Errorf("diskpacked: attempt to fetch blob from out of range pack file %d > %d", meta.file, len(s.fds))
+	s.fdsMu.RLock()
+	nfds := len(s.fds)
+	var rac *os.File
+	if meta.file < nfds {
+		rac = s.fds[meta.file]
 	}
-	rac := s.fds[meta.file]
+	s.fdsMu.RUnlock()
+	if rac == nil {
+		return nil, 0, fmt.Errorf("diskpacked: attempt to fetch blob from out of range pack file %d > %d", meta.file, nfds)
+	}
 	var rs io.ReadSeeker
 	if length == -1 {
 		// normal Fetch mode
